@@ -16,9 +16,14 @@
     false for that code.
 -/
 import Vita.C10.Lemmas
+import Vita.C10.LemmasInputs
+import Vita.C10.GenSites
+import Vita.C10.Reviewed
+import Vita.C10.Loops
+import Vita.C09.Props
 
 namespace Vita.C10
-open Vita.C09
+open Vita.C09 Vita.C10.Sites
 
 variable {F : Type}
 
@@ -32,45 +37,37 @@ theorem read_total_csv : ReadTotalCsv { guards := true } := by
     unfold readCsv at h
     exact readCsvRecs_valid _ _ _ _ _ _ h
 
-/-- **read_total (XRFF)** for the code after the fixes: all parsed documents -/
+/-- **read_total (XRFF)** for the code after the fixes: all parsed documents, all hooks (a hook may reject
+    the record and may rewrite it: `filter_hook_t = std::function<bool (record_t &)>`) -/
 theorem read_total_xrff : ReadTotalXrff { guards := true } := by
-  intro F o filter doc
-  constructor
-  · exact readXrff_noFault o filter doc
-  · intro df n h
-    unfold readXrff at h
-    split at h
-    · cases h
-    · cases h
-    · next attrs instances =>
-      cases ha : List.foldlM xAttrStep ({} : XSt) attrs with
-      | error e => simp [ha, bind, Except.bind] at h
-      | ok st =>
-        simp only [ha, bind, Except.bind] at h
-        split at h
-        · cases h
-        · split at h
-          · cases h
-          · next insts =>
-            cases hi : List.foldlM (xInstStep { guards := true } o filter
-                (if st.nOutput = 0 then st.index - 1 else st.outputIndex))
-                ({ cols := if st.nOutput = 0 then st.cols.getLast?.toList ++ st.cols.dropLast else st.cols } : DF F)
-                insts with
-            | error e => simp [hi] at h
-            | ok df' =>
-              simp only [hi] at h
-              cases hv : isValid df' with
-              | error e => simp [hv] at h
-              | ok v =>
-                simp only [hv, Bool.true_and] at h
-                split at h
-                · cases h
-                · next hc =>
-                  simp only [pure, Except.pure, Except.ok.injEq, Prod.mk.injEq] at h
-                  obtain ⟨rfl, rfl⟩ := h
-                  simp only [Bool.not_eq_true', Bool.not_eq_false] at hc
-                  have hvalid : Valid df' := by unfold Valid; rw [hv, hc]
-                  exact ⟨hvalid, valid_equalInputs _ hvalid, by simp [hc]⟩
+  intro F o hook doc
+  exact ⟨readXrffH_noFault o hook doc, fun df n h => readXrffH_valid o hook doc df n h⟩
+
+/-- the same for a filter that only accepts or rejects (`readXrff`, the form used by the round-1 theorems) -/
+theorem read_total_xrff_pred (o : NumOracle F) (f : List Str → Bool) (doc : XDoc) :
+    NoFault (readXrff { guards := true } o f doc) ∧
+    ∀ df n, readXrff { guards := true } o f doc = .ok (df, n) →
+      Valid df ∧ EqualInputs df ∧ n = df.examples.length := by
+  rw [readXrff_eq_H]
+  exact read_total_xrff F o (Hook.ofPred f) doc
+
+/-- **read_total (file)**: `dataframe::read(path, params)` – XRFF for `.xrff` / `.xml` in any case, else CSV – never
+    faults and returns only valid dataframes with equally long inputs; the count it returns is the number of examples -/
+theorem read_total_file : ReadTotalFile { guards := true } := by
+  intro F o p ext bytes doc
+  unfold readFile
+  split
+  · exact read_total_xrff F o p.hook doc
+  · constructor
+    · exact noFault_bind (read_total_csv F o p bytes).1 (fun df => noFault_pure _)
+    · intro df n h
+      cases hr : readCsv { guards := true } o p bytes with
+      | error e => simp [hr, bind, Except.bind] at h
+      | ok df' =>
+        simp only [hr, bind, Except.bind, pure, Except.pure, Except.ok.injEq, Prod.mk.injEq] at h
+        obtain ⟨rfl, rfl⟩ := h
+        obtain ⟨h1, _, h3⟩ := (read_total_csv F o p bytes).2 df' hr
+        exact ⟨h1, h3, rfl⟩
 
 /-! ### the code as found -/
 
@@ -133,10 +130,192 @@ theorem read_total_old_false : ¬ ReadTotalCsv { guards := false } ∧ ¬ ReadTo
     have := (h Nat o { delim := ',', header := some false } "a,b\nc,d,e\n".toList).1
     exact this .build (old_build_faults o (fun _ _ _ => rfl))
   · intro h
-    have := (h Nat o (fun _ => true)
+    have := (h Nat o (Hook.ofPred (fun _ => true))
       (.doc [⟨"a".toList, false, "string".toList, []⟩, ⟨"c".toList, true, "string".toList, []⟩]
             (some [["x".toList]]))).1
+    rw [← readXrff_eq_H] at this
     exact this .rotateXrff (old_rotate_xrff_faults o)
+
+/-! ### `is_valid` itself, and the problem built from a stream -/
+
+/-- **is_valid_spec.**  The consistency check, characterised (so that "passes its own consistency check" of
+    the property is a statement about the dataframe, not about a function): `is_valid()` answers `true` exactly
+    for an empty dataframe, or one with no class or at least two, **all examples with the same number of inputs**,
+    every label a class id in range when there are classes, and no column without a domain that has states.  In
+    particular a dataframe whose examples have different numbers of inputs never passes – whatever the kind of
+    problem (the scan of the examples is not restricted to classification tasks). -/
+theorem is_valid_spec (df : DF F) : isValid df = .ok true ↔
+    (df.examples = [] ∨
+      (df.classes.length ≠ 1 ∧ EqualInputs df ∧ LabelsOK df ∧ colsValid df.cols = true)) := by
+  unfold isValid
+  cases hex : df.examples with
+  | nil => simp [pure, Except.pure]
+  | cons e0 es =>
+    simp only [reduceCtorEq, false_or]
+    by_cases h1 : df.classes.length = 1
+    · simp [h1, pure, Except.pure]
+    · simp only [h1, if_false, ne_eq, not_false_eq_true, true_and]
+      have hspec := examplesValid_spec df.classes.length e0.input.length (e0 :: es)
+      have heq : EqualInputs df ↔ ∀ e ∈ e0 :: es, e.input.length = e0.input.length := by
+        unfold EqualInputs
+        rw [hex]
+        constructor
+        · intro h e he; exact h e he e0 (by simp)
+        · intro h e he e' he'; rw [h e he, h e' he']
+      have hlab : LabelsOK df ↔ (df.classes.length = 0 ∨
+          ∀ e ∈ e0 :: es, ∃ l : Int, e.output = .int l ∧ 0 ≤ l ∧ l < df.classes.length) := by
+        unfold LabelsOK; rw [hex]
+      rw [heq, hlab]
+      cases hv : examplesValid df.classes.length e0.input.length (e0 :: es) with
+      | error err =>
+        simp only [bind, Except.bind, reduceCtorEq, false_iff]
+        intro h
+        have := hspec.2 ⟨h.1, h.2.1⟩
+        rw [hv] at this; cases this
+      | ok b =>
+        simp only [bind, Except.bind, pure, Except.pure, Except.ok.injEq, Bool.and_eq_true]
+        rw [hv] at hspec
+        simp only [Except.ok.injEq] at hspec
+        constructor
+        · rintro ⟨hb, hc⟩
+          have := hspec.1 hb
+          exact ⟨this.1, this.2, hc⟩
+        · rintro ⟨ha, hb, hc⟩
+          exact ⟨hspec.2 ⟨ha, hb⟩, hc⟩
+
+/-- what a problem set up from a dataset guarantees to the evolution that runs on it -/
+def ProblemOK (df : DF F) (syms : List TermSym) : Prop :=
+  Valid df ∧ df.examples ≠ [] ∧ EqualInputs df ∧
+  ∀ v, TermSym.var v ∈ syms → ∀ e ∈ df.examples, ∃ x, evalVar v e = .ok x
+
+/-- **src_problem_total (stream).**  `src_problem(std::istream &, typing)` – `read_csv` with sniffed dialect,
+    then `category_set` and `setup_terminals` – for **every byte string**, both typings, every number oracle:
+    never an out-of-bounds access; and when it returns, the training set is valid, not empty, with equally long
+    input vectors, and **every variable it inserted reads inside the input vector of every example**
+    (`src_interpreter::fetch_var` in range: one input per column that has a domain, one variable per such column). -/
+theorem src_problem_total (o : NumOracle F) (strong : Bool) (bytes : Str) :
+    NoFault (srcProblemStream { guards := true } o strong bytes) ∧
+    ∀ df syms, srcProblemStream { guards := true } o strong bytes = .ok (df, syms) → ProblemOK df syms := by
+  constructor
+  · exact noFault_bind (read_total_csv F o {} bytes).1
+      (fun df => noFault_bind (setupSymbols_noFault _ _ _) (fun syms => noFault_pure _))
+  · intro df syms h
+    unfold srcProblemStream at h
+    obtain ⟨df', hr, h⟩ := bind_ok h
+    obtain ⟨syms', hs, h⟩ := bind_ok h
+    simp only [pure, Except.pure, Except.ok.injEq, Prod.mk.injEq] at h
+    obtain ⟨rfl, rfl⟩ := h
+    obtain ⟨h1, h2, h3⟩ := (read_total_csv F o {} bytes).2 df' hr
+    refine ⟨h1, h2, h3, ?_⟩
+    intro v hv e he
+    exact vars_in_range strong df'.cols syms'
+      (fun c hc => readCsv_statesStr _ o _ bytes df' hr c (List.mem_of_mem_tail hc)) hs e
+      (readCsv_inputs o {} bytes df' hr e he) v hv
+
+/-- **src_problem_total (file)**: the same for `src_problem(path, typing)`, whatever the extension of the name
+    (XRFF or CSV); an XRFF file may hold no instance at all (then there is nothing a variable could read) -/
+theorem src_problem_file_total (o : NumOracle F) (strong : Bool) (ext bytes : Str) (doc : XDoc) :
+    NoFault (srcProblemFile { guards := true } o strong ext bytes doc) ∧
+    ∀ df syms, srcProblemFile { guards := true } o strong ext bytes doc = .ok (df, syms) →
+      Valid df ∧ EqualInputs df ∧
+      ∀ v, TermSym.var v ∈ syms → ∀ e ∈ df.examples, ∃ x, evalVar v e = .ok x := by
+  constructor
+  · exact noFault_bind (read_total_file F o {} ext bytes doc).1
+      (fun r => noFault_bind (setupSymbols_noFault _ _ _) (fun syms => noFault_pure _))
+  · intro df syms h
+    unfold srcProblemFile at h
+    obtain ⟨r, hr, h⟩ := bind_ok h
+    obtain ⟨syms', hs, h⟩ := bind_ok h
+    simp only [pure, Except.pure, Except.ok.injEq, Prod.mk.injEq] at h
+    obtain ⟨rfl, rfl⟩ := h
+    obtain ⟨df', n⟩ := r
+    obtain ⟨h1, h3, _⟩ := (read_total_file F o {} ext bytes doc).2 df' n hr
+    refine ⟨h1, h3, ?_⟩
+    intro v hv e he
+    unfold readFile at hr
+    split at hr
+    · exact vars_in_range strong df'.cols syms'
+        (fun c hc => readXrffH_statesStr _ o _ doc df' n hr c (List.mem_of_mem_tail hc)) hs e
+        (readXrffH_inputs o _ doc df' n hr e he) v hv
+    · obtain ⟨df'', hr', hr⟩ := bind_ok hr
+      simp only [pure, Except.pure, Except.ok.injEq, Prod.mk.injEq] at hr
+      obtain ⟨rfl, _⟩ := hr
+      exact vars_in_range strong df''.cols syms'
+        (fun c hc => readCsv_statesStr _ o _ bytes df'' hr' c (List.mem_of_mem_tail hc)) hs e
+        (readCsv_inputs o {} bytes df'' hr' e he) v hv
+
+/-! ### every access site of the C++ readers (extracted by tools/translate_reader.py on every run) -/
+
+/-- **sites_safe.**  For every subscript / `front` / `back` / iterator-arithmetic / iterator-, pointer- and
+    optional-dereference / `std::string(const char *)` site that the translator finds in `read_csv`, `read_xrff`,
+    `read`, `read_record`, `to_example`, `columns_info::build`, `is_valid`, `encode`, `class_name`, the whole of
+    pocket_csv.h (parser, `parse_line`, `get_input`, sniffer), `src_problem(stream)`, `setup_terminals`, `category_set`:
+    in every state in which the guards that dominate the site hold, the index is inside the container
+    (`idx < size`; `≤ size` for a position; the pointer / optional is not null; a call that closes a cycle of the
+    call graph is unreachable) – or the site is one of the ten of `reviewedSites`, whose safety is argued on the
+    model there.  Deleting or weakening a guard, or adding an access that is not evidently guarded, makes a
+    conjunct unprovable. -/
+theorem sites_safe : ∀ s ∈ Gen.sites, s.Safe ∨ s.key ∈ reviewedSites := by
+  rw [← allP_iff]
+  unfold Gen.sites
+  repeat' (first | exact trivial | apply And.intro)
+  all_goals first
+    | (left; intro env hg
+       simp only [allHold, GE.eval, IE.eval, SiteRec.goal] at hg ⊢
+       omega)
+    | (right; decide)
+
+/-- **no_reachable_recursion.**  Every call that closes a cycle among the reader functions (the translator inlines
+    a cycle once and reports the call that would start a third turn) is dominated by guards that contradict each
+    other: no reader function calls itself, directly or through others, on any input.  (In the tree as it is the
+    only cycle is `get_input` → `const_iterator()` → `get_input`, cut by the null stream of the default argument.)
+    None of these sites is in `reviewedSites`. -/
+theorem no_reachable_recursion : ∀ s ∈ Gen.sites, s.kind = .never → s.Safe := by
+  rw [← allP_iff]
+  unfold Gen.sites
+  repeat' (first | exact trivial | apply And.intro)
+  all_goals first
+    | (intro hk; exact absurd hk (by decide))
+    | (intro _ env hg
+       simp only [allHold, GE.eval, IE.eval, SiteRec.goal] at hg ⊢
+       omega)
+
+/-! ### termination and stack depth of the parser's loops -/
+
+/-- how `get_input` skips lines, from the generated call graph: a self call makes it a recursion -/
+def getInputShape : Shape :=
+  if Gen.selfRecursive.contains "pocket_csv::parser::const_iterator::get_input()" then .recursion else .loop
+
+/-- **get_input_terminates_flat.**  On every stream (list of lines), for every dialect and hook: iterating the
+    parser as `read_csv` / `has_header` do (`begin()`, then `++` until `end()`) (a) yields exactly the records of the
+    specification the C09 / C10 theorems speak about, (b) calls `std::getline` once per line plus once at the end –
+    every loop iteration consumes a line, so the loops terminate – and (c) never has more than ONE activation
+    record of `get_input` on the stack, however long the runs of blank or hook-rejected lines are. -/
+theorem get_input_terminates_flat (dl : Dialect) (hook : Hook) (lines : List Str) :
+    (iterate getInputShape dl hook lines).recs = records dl hook lines ∧
+    (iterate getInputShape dl hook lines).getlines = lines.length + 1 ∧
+    (iterate getInputShape dl hook lines).depth = 1 := by
+  have hs : getInputShape = .loop := by decide
+  rw [hs]
+  exact ⟨iterate_recs _ dl hook lines, iterate_getlines _ dl hook lines, iterate_depth_loop dl hook lines⟩
+
+/-- **recursive_skipping_unbounded.**  The same function with the skipping written as a self call per skipped
+    line (the seeded change C10-m4) computes the same records with the same number of `getline`s, but its stack
+    depth exceeds every bound: `n` blank lines need more than `n` activation records.  (This is why the check
+    reads long runs of skipped lines on a small stack.) -/
+theorem recursive_skipping_unbounded (dl : Dialect) (hook : Hook) :
+    (∀ lines, (iterate .recursion dl hook lines).recs = (iterate .loop dl hook lines).recs ∧
+              (iterate .recursion dl hook lines).getlines = (iterate .loop dl hook lines).getlines) ∧
+    ∀ n, n < (iterate .recursion dl hook (List.replicate n [])).depth := by
+  refine ⟨fun lines => ⟨?_, ?_⟩, iterate_depth_recursion_unbounded dl hook⟩
+  · rw [iterate_recs, iterate_recs]
+  · rw [iterate_getlines, iterate_getlines]
+
+/-- **parse_line_steps.**  The loop of `parse_line` (`for (pos = 0; pos < length && line[pos]; ++pos)`, with the extra
+    `++pos` of a doubled quote) runs at most `line.length` times, whatever the line, the dialect and the quoting state:
+    `pos` strictly increases towards `length`. -/
+theorem parse_line_steps (dl : Dialect) (line : Str) : parseSteps dl line false [] ≤ line.length :=
+  parseSteps_le dl line false []
 
 /-- non-vacuity: the fixed model does return dataframes (`a,b / c,d` with labels in column 0) -/
 example : ∃ df : DF Nat, readCsv { guards := true }
@@ -150,5 +329,46 @@ example : ∃ df : DF Nat, readCsv { guards := true }
     readRecord, toExample, outputOf, inputsGo, convert, encode, lookup, addState, setInsert, isValid,
     examplesValid, label, colsValid,
     bind, Except.bind, pure, Except.pure, throw, throwThe, MonadExceptOf.throw]
+
+/-- non-vacuity of `src_problem_total`: the four-line file `x,y / 1,2 / 3,4` (dialect left to the sniffer, as the
+    constructor does) yields a problem: two examples, one variable `y` that reads input 0 -/
+example : ∃ (df : DF Nat) (syms : List TermSym),
+    srcProblemStream { guards := true } digitOracle false
+      (renderPlain ',' [["x".toList, "y".toList], ["1".toList, "2".toList], ["3".toList, "4".toList]]) = .ok (df, syms) ∧
+    df.examples.length = 2 ∧ syms = [.var { name := ['y'], var := 0, category := some 0 }] := by
+  have hu : Unambiguous digitOracle ',' (some ["x".toList, "y".toList])
+      [["1".toList, "2".toList], ["3".toList, "4".toList]] :=
+    { delim := by simp [preferred]
+      width := ⟨2, by omega, by intro r hr; simp at hr; rcases hr with rfl | rfl <;> rfl,
+        by intro h hh; simp at hh; subst hh; rfl⟩
+      two := by simp
+      data := by
+        intro r hr c hc
+        simp at hr
+        rcases hr with rfl | rfl <;> simp at hc <;> rcases hc with rfl | rfl <;>
+          simp [DataCell, PlainCell, preferred, isBlank, isSpace, isNumber, trim, digitOracle, isAlpha, isUpper, isLower] <;>
+          decide
+      head := by
+        intro h hh c hc
+        simp at hh
+        subst hh
+        simp at hc
+        rcases hc with rfl | rfl <;>
+          simp [HeadCell, PlainCell, preferred, isBlank, isSpace, isNumber, trim, digitOracle] <;> decide }
+  have hs := sniffed_read_eq_explicit { guards := true } digitOracle ',' (some ["x".toList, "y".toList])
+    [["1".toList, "2".toList], ["3".toList, "4".toList]] hu {} (by decide) ⟨rfl, rfl⟩
+  simp only [Option.toList_some, List.singleton_append] at hs
+  refine ⟨{ cols := [{ name := ['x'], dom := .dbl }, { name := ['y'], dom := .dbl }],
+            examples := [{ input := [.dbl 2], output := .dbl 1 }, { input := [.dbl 4], output := .dbl 3 }] },
+          _, ?_, rfl, rfl⟩
+  have hbytes : renderPlain ',' [["x".toList, "y".toList], ["1".toList, "2".toList], ["3".toList, "4".toList]] =
+      "x,y\n1,2\n3,4\n".toList := by decide
+  unfold srcProblemStream
+  rw [hs, hbytes]
+  simp [readCsv, resolveDialect, splitLines, splitLinesAux, records, isBlank,
+    isSpace, parseLine, go, addField, readCsvRecs, List.foldlM, csvStep, csvProceed, rotate?, build, buildGo, setDomain,
+    trim, isNumber, readRecord, toExample, outputOf, inputsGo, convert, encode, lookup, addState, setInsert, isValid,
+    examplesValid, label, colsValid, digitOracle, setupSymbols, setupSymsGo, stateConsts, categories, categoriesGo,
+    varName, bind, Except.bind, pure, Except.pure]
 
 end Vita.C10
